@@ -135,6 +135,12 @@ class Interp:
             return self.modules[name]
         path, is_pkg = self.module_path(name)
         if not os.path.exists(path):
+            if is_pkg:      # namespace package (directory without __init__.py): an empty module whose attributes are sub-modules
+                m = ModuleVal(name, path)
+                m.is_pkg, m.loaded, m.source = True, True, ""
+                m.env.vars["__name__"] = name
+                self.modules[name] = m
+                return m
             raise Unsupported(f"module {name} not found under {self.repo_root}")
         m = ModuleVal(name, path)
         m.is_pkg = is_pkg
@@ -226,7 +232,15 @@ class Interp:
                 env.assign(a.asname, self.import_module(full))
             else:
                 root = full.split(".")[0]
-                env.assign(root, self.import_module(root) if root != "rpylib" else self.import_module(full))
+                if root != "rpylib":
+                    env.assign(root, self.import_module(root))
+                else:
+                    # `import rpylib.a.b` binds the top-level package; sub-modules resolve through attribute access
+                    self.import_module(full)
+                    try:
+                        env.assign(root, self.import_module(root))
+                    except Unsupported:
+                        env.assign(root, self.import_module(full))
 
     def s_ImportFrom(self, st, env, module):
         full = self.resolve_import(module, st.module, st.level)
